@@ -48,14 +48,26 @@ pub fn crashes(ctx : &Ctx, out : &mut Out)
         let mut leaves : BTreeSet<String> = BTreeSet::new();
         for rule in &sc.rules { for s in &rule.sources { if sc.owner(s).is_none() { leaves.insert(s.clone()); } } }
         for l in leaves.iter() { user(Op::Write(l.clone(), r.pick(scenario::CONTENTS).as_bytes().to_vec()), &mut prep); }
-        let state = r.below(5);
-        out.count(&format!("prior:{}", ["fresh", "built", "built-edited", "built-cleaned", "built-tampered"][state]));
+        let state = r.below(7);
+        out.count(&format!("prior:{}", ["fresh", "built", "built-edited", "built-cleaned", "built-tampered", "built-edited-built-reverted", "built-edited-built-reverted"][state]));
         if state >= 1 { driver.invoke(&Op::Build(None), Policy::Serial); driver.tick(); prep.push(Op::Build(None)); }
         match state
         {
             2 => { if let Some(l) = leaves.iter().next() { user(Op::Write(l.clone(), b"changed".to_vec()), &mut prep); } },
             3 => { driver.invoke(&Op::Clean(None), Policy::Serial); driver.tick(); prep.push(Op::Clean(None)); },
             4 => { let ts : Vec<String> = sc.all_targets().into_iter().collect(); if !ts.is_empty() { user(Op::Write(r.pick(&ts).clone(), b"tampered".to_vec()), &mut prep); } },
+            5 | 6 =>
+            {
+                // built on A, edited to B and built, reverted to A: the build that gets killed recovers the A outputs
+                // from the cache while the table still describes the B outputs
+                if let Some(l) = leaves.iter().next()
+                {
+                    let original = driver.sys.read(l).unwrap_or(vec![]);
+                    user(Op::Write(l.clone(), b"changed".to_vec()), &mut prep);
+                    driver.invoke(&Op::Build(None), Policy::Serial); driver.tick(); prep.push(Op::Build(None));
+                    user(Op::Write(l.clone(), original), &mut prep);
+                }
+            },
             _ => {},
         }
         let targets = sc.all_targets();
